@@ -167,12 +167,12 @@ fn parse_cfg(tok: &str, base: &str) -> Option<Vec<(String, String)>> {
 }
 
 /// half of the requests build their loader with `new(first pair)` + `add(..)` for the others (`Default` when
-/// there is none): same checks, same order, same first error as `new(all)`
+/// there is none); the decision is a hash of the request's IRI token, which the model driver computes too
 fn via_add(iri: &str) -> bool {
     iri.bytes().fold(0u32, |a, b| a.wrapping_mul(31).wrapping_add(b as u32)) % 2 == 1
 }
 
-fn make_loader(cfg: &[(String, String)], iri: &str) -> Result<LocalLoader, &'static str> {
+fn make_loader(cfg: &[(String, String)], iri_tok: &str) -> Result<LocalLoader, &'static str> {
     use sophia_resource::loader::LocalLoaderError as E;
     let err = |e| match e {
         E::IriMustEndWithSlash(_) => "slash",
@@ -181,7 +181,7 @@ fn make_loader(cfg: &[(String, String)], iri: &str) -> Result<LocalLoader, &'sta
     };
     let mut caches: Vec<(Iri<MownStr<'static>>, PathBuf)> =
         cfg.iter().map(|(ns, d)| (Iri::new_unchecked(MownStr::from(ns.clone())), PathBuf::from(d))).collect();
-    if via_add(iri) {
+    if via_add(iri_tok) {
         let rest = if caches.is_empty() { vec![] } else { caches.split_off(1) };
         let mut l = if caches.is_empty() { LocalLoader::default() } else { LocalLoader::new(caches).map_err(err)? };
         for (ns, d) in rest {
@@ -328,7 +328,7 @@ fn exec_g(c: &str, f: &str, i: &str, symlinks: Option<&str>) -> String {
         Ok(x) => x,
         Err(r) => return r,
     };
-    let loader = match make_loader(&cfg, &iri) {
+    let loader = match make_loader(&cfg, i) {
         Ok(l) => l,
         Err(k) => return format!("new={k}"),
     };
@@ -366,13 +366,13 @@ fn exec_g(c: &str, f: &str, i: &str, symlinks: Option<&str>) -> String {
 const P_LIST: &str = "urn:vh:q";
 const P_REV: &str = "urn:vh:r";
 
-fn exec_l(c: &str, f: &str, i: &str, p: &str, mode: &str) -> String {
+fn exec_l(c: &str, f: &str, i: &str, p: &str, mode: &str, given: &str) -> String {
     let (lay, cfg, iri) = match setup(c, f, i) {
         Ok(x) => x,
         Err(r) => return r,
     };
     let Some(pred) = unhex(p) else { return "bad-hex".into() };
-    let loader = match make_loader(&cfg, &iri) {
+    let loader = match make_loader(&cfg, i) {
         Ok(l) => l.arced(),
         Err(k) => return format!("new={k}"),
     };
@@ -386,6 +386,15 @@ fn exec_l(c: &str, f: &str, i: &str, p: &str, mode: &str) -> String {
             Some(i) => i.as_str().to_string(),
             None => return "new=ok doc=ok link=notiri escaped=0 linkdiff=0".into(),
         },
+        // the `first / second next()` idiom of get_term / get_resource / pred_resource
+        Err(ResourceError::UnexpectedMultipleValueFor { .. }) => {
+            let one = match doc.get_resource(pred) {
+                Err(ResourceError::UnexpectedMultipleValueFor { .. }) => "multiple",
+                Ok(_) => "ok",
+                Err(_) => "err",
+            };
+            return format!("new=ok doc=ok link=multiple one={one} escaped=0 linkdiff=0");
+        }
         Err(_) => return "new=ok doc=ok link=none escaped=0 linkdiff=0".into(),
     };
     // what the same loader returns for the IRI found in the data, asked directly
@@ -457,6 +466,10 @@ fn exec_l(c: &str, f: &str, i: &str, p: &str, mode: &str) -> String {
     // `ok` / `parse` / `cantguess` depend on the parsers: all three mean "bytes were read"
     r.push_str(&format!(" res={}", res));
     r.push_str(&format!(" fres={}", if via.is_some() { "read" } else { res.as_str() }));
+    if given != "-" {
+        // the IRI planted verbatim in the N-Triples document is the IRI the real code found there
+        r.push_str(&format!(" linkgiven={}", (unhex(given).map(|g| g.replace(PH, &lay.base)).as_deref() == Some(link.as_str())) as u8));
+    }
     r.push_str(&fail);
     r
 }
@@ -482,7 +495,7 @@ fn exec_j(c: &str, f: &str, i: &str) -> String {
         Ok(x) => x,
         Err(r) => return r,
     };
-    let loader = match make_loader(&cfg, &iri) {
+    let loader = match make_loader(&cfg, i) {
         Ok(l) => l.arced(),
         Err(k) => return format!("new={k}"),
     };
@@ -554,8 +567,9 @@ pub fn exec(line: &str) -> String {
     match toks.as_slice() {
         ["g", c, f, i] => exec_g(c, f, i, None),
         ["y", c, f, i, k] if *k == "in" || *k == "out" => exec_g(c, f, i, Some(k)),
-        ["l", c, f, i, p] => exec_l(c, f, i, p, "one"),
-        ["l", c, f, i, p, m] | ["l", c, f, i, p, m, _] if ["one", "any", "all", "items", "pred"].contains(m) => exec_l(c, f, i, p, m),
+        ["l", c, f, i, p] => exec_l(c, f, i, p, "one", "-"),
+        ["l", c, f, i, p, m] if ["one", "any", "all", "items", "pred"].contains(m) => exec_l(c, f, i, p, m, "-"),
+        ["l", c, f, i, p, m, g] if ["one", "any", "all", "items", "pred"].contains(m) => exec_l(c, f, i, p, m, g),
         ["j", c, f, i] => exec_j(c, f, i),
         _ => "bad-op".into(),
     }
@@ -843,7 +857,7 @@ fn emit_g(ctx: &mut GenCtx, cfg: &[(String, String)], fs: &str, iri: &str, tag: 
     if iri.contains("//") && iri.matches("//").count() > 1 {
         ctx.stats.bump("iri.empty_segment");
     }
-    if via_add(iri) {
+    if via_add(&hex(iri)) {
         ctx.stats.bump(if cfg.len() > 1 { "cfg.built_with_add" } else { "cfg.built_with_new_or_default" });
     }
     ctx.emit(&format!("g {} {} {}", cfg_tok(cfg), fs, hex(iri)));
@@ -1137,9 +1151,20 @@ pub fn generate(ctx: &mut GenCtx) {
                         content.push_str(&format!("<#l{k}> <{P_LINK}> <{l}> ; <{P_LIST}> ( <{l}> ) .\n<{l}> <{P_REV}> <#l{k}> .\n"));
                     }
                 }
+                if nt {
+                    // a two-valued and a value-less subject: `get_term` / `get_resource` must refuse / find nothing
+                    content.push_str(&format!("<{doc_iri}#multi> <{P_LINK}> <{ns0}a.ttl> .\n<{doc_iri}#multi> <{P_LINK}> <{ns0}b.nt> .\n"));
+                    content.push_str(&format!("<{doc_iri}#none> <urn:vh:other> <{ns0}a.ttl> .\n"));
+                }
                 let mut with_doc = plain.clone();
                 with_doc.push(('c', rel_doc, Some(content)));
                 let fs_doc = fs_tok(&with_doc);
+                if nt {
+                    for (frag, tag) in [("multi", "l.unique_multiple"), ("none", "l.unique_none")] {
+                        ctx.stats.bump(tag);
+                        ctx.emit(&format!("l {} {} {} {} one -", cfg_tok(&cfg), fs_doc, hex(&format!("{doc_iri}#{frag}")), hex(P_LINK)));
+                    }
+                }
                 for (k, l) in chunk.iter().enumerate() {
                     // every link through `get_resource`, and through one of the other entry points in turn
                     for mode in ["one", MODES[1 + (k + chunk_no + d) % 4]] {
